@@ -1,4 +1,185 @@
-import PoetryVerif.Model.MarkerOps
+/-
+C07 — Marker intersection, union and inversion preserve truth in every environment.
+Property theorems only (helper lemmas: Proofs/MarkerSem.lean, Proofs/MarkerAlgSound.lean,
+Proofs/MarkerAlgSoundOps.lean).
+
+`holds E m` is the truth value of `m` in `E` (`M.sem` over `leafEval E`); it IS `M.validate E m` wherever
+every leaf evaluates (`holds_is_validate`).  The simplifier is proved sound for EVERY fuel value and EVERY
+`detect_recursion` stack, for all operands whose leaves satisfy an invariant `G`, relative to the two
+leaf-level facts of `LeafSpec` (marker equality implies equal truth; a successful `_merge_single_markers`
+is the conjunction/disjunction of its operands).  `leafSpec_distinct_names`… discharge `LeafSpec` on
+fragments; the full statement is false of code and model (`C07_full_statement_false`).
+-/
+import PoetryVerif.Proofs.MarkerAlgSoundOps
+
+set_option linter.unusedSimpArgs false
+set_option linter.unusedVariables false
+
 namespace Poetry.C07
-theorem placeholder_to_be_replaced : True := trivial
+open Poetry Poetry.Marker
+
+/-- truth of a marker in an environment -/
+def holds (E : Env) (m : M) : Bool := M.sem (leafEval E) m
+
+/-- a leaf as the parser builds it: `SingleMarker(name, constraint_string, swapped)` -/
+def ParsedLeaf (l : Leaf) : Prop := ∃ n c sw s, mkSingle n c sw = .ok s ∧ l = .single s
+
+/-- **The property at full strength** (operands built by the marker constructor, every environment in
+which the operands evaluate, every fuel, every recursion stack). -/
+def C07_full_statement : Prop :=
+  ∀ (E : Env) (a b : M), M.Good ParsedLeaf a → M.Good ParsedLeaf b → M.Evaluable E a → M.Evaluable E b →
+    (∀ fuel stk r, mIntersect fuel stk a b = .ok r → M.validate E r = .ok (holds E a && holds E b)) ∧
+    (∀ fuel stk r, mUnion fuel stk a b = .ok r → M.validate E r = .ok (holds E a || holds E b)) ∧
+    (∀ r, a.invert = .ok r → M.validate E r = .ok (!holds E a))
+
+/-- **`validate` is `holds`** wherever every leaf of the marker evaluates without raising (Python's
+short-circuit `all`/`any` included). -/
+theorem holds_is_validate (E : Env) (m : M) (h : M.Evaluable E m) : M.validate E m = .ok (holds E m) :=
+  M.validate_eq_sem E m h
+
+open Poetry.Marker.Ex in
+example : mkSingle "sys_platform" "==a" false = .ok sA ∧ mkSingle "sys_platform" "!= a" false = .ok sNA ∧
+    mkSingle "os_name" "!=b" false = .ok sB := ⟨rfl, rfl, rfl⟩
+open Poetry.Marker.Ex in
+example : M.Evaluable envAB (.multi [.leaf (.single sA), .union [.leaf (.single sB), .empty]]) ∧
+    M.validate envAB (.multi [.leaf (.single sA), .union [.leaf (.single sB), .empty]]) = .ok true := by
+  refine ⟨?_, rfl⟩
+  simp [M.Evaluable, M.Good, M.GoodAll]
+  exact ⟨Or.inr rfl, Or.inr rfl⟩
+
+variable {E : Env} {G : Leaf → Prop} {fuel : Nat} {stk : Stack}
+
+/-- **Intersection preserves truth** — every fuel, every stack, all operands over good leaves:
+the result holds in `E` exactly when both operands do, and `validate` reports that value. -/
+theorem intersect_sound_partial (S : LeafSpec (leafEval E) G) (hE : ∀ l, G l → ∃ b, l.validate E = .ok b)
+    {a b r : M} (ha : M.Good G a) (hb : M.Good G b) (h : mIntersect fuel stk a b = .ok r) :
+    M.Good G r ∧ holds E r = (holds E a && holds E b) ∧
+      M.validate E r = .ok (holds E a && holds E b) := by
+  have := mIntersect_sound S ha hb h
+  refine ⟨this.1, this.2, ?_⟩
+  rw [holds_is_validate E r (M.good_mono hE r this.1)]
+  exact congrArg _ this.2
+
+/-- the hypotheses are satisfiable on composite operands: `(sys_platform == "a" and os_name != "b")`
+∩ `sys_platform != "a"` is the empty marker, with the leaf facts proved for the three leaves involved -/
+example : ∃ r, LeafSpec (leafEval Ex.envAB) Ex.G0 ∧
+    M.Good Ex.G0 (.multi [.leaf (.single Ex.sA), .leaf (.single Ex.sB)]) ∧
+    mIntersect 60 [] (.multi [.leaf (.single Ex.sA), .leaf (.single Ex.sB)]) (.leaf (.single Ex.sNA)) = .ok r ∧
+    r = .empty := by
+  refine ⟨_, Ex.leafSpec0, by simp [Ex.G0], ?_, rfl⟩
+  marker_eval [Ex.sA, Ex.sNA, Ex.sB, Ex.i1, Ex.i2, Ex.i3, Ex.i4, Ex.i5, Ex.u1, Ex.u2, Ex.u3, Ex.u4, Ex.u5]
+
+/-- **Union preserves truth.** -/
+theorem union_sound_partial (S : LeafSpec (leafEval E) G) (hE : ∀ l, G l → ∃ b, l.validate E = .ok b)
+    {a b r : M} (ha : M.Good G a) (hb : M.Good G b) (h : mUnion fuel stk a b = .ok r) :
+    M.Good G r ∧ holds E r = (holds E a || holds E b) ∧
+      M.validate E r = .ok (holds E a || holds E b) := by
+  have := mUnion_sound S ha hb h
+  refine ⟨this.1, this.2, ?_⟩
+  rw [holds_is_validate E r (M.good_mono hE r this.1)]
+  exact congrArg _ this.2
+
+example : ∃ r, LeafSpec (leafEval Ex.envAB) Ex.G0 ∧
+    mUnion 60 [] (.multi [.leaf (.single Ex.sA), .leaf (.single Ex.sB)]) (.leaf (.single Ex.sNA)) = .ok r ∧
+    r = .union [.leaf (.single Ex.sB), .leaf (.single Ex.sNA)] := by
+  refine ⟨_, Ex.leafSpec0, ?_, rfl⟩
+  marker_eval [Ex.sA, Ex.sNA, Ex.sB, Ex.i1, Ex.i2, Ex.i3, Ex.i4, Ex.i5, Ex.u1, Ex.u2, Ex.u3, Ex.u4, Ex.u5]
+
+/-- **Inversion preserves truth** (De Morgan over the flattening constructors), relative to the
+leaf-level statement. -/
+theorem invert_sound_partial (S : LeafSpec (leafEval E) G) (LI : LeafInvertSound (leafEval E) G)
+    (hE : ∀ l, G l → ∃ b, l.validate E = .ok b) {a r : M} (ha : M.Good G a) (h : a.invert = .ok r) :
+    M.Good G r ∧ holds E r = !holds E a ∧ M.validate E r = .ok (!holds E a) := by
+  have := M.invert_sound S LI a r ha h
+  refine ⟨this.1, this.2, ?_⟩
+  rw [holds_is_validate E r (M.good_mono hE r this.1)]
+  exact congrArg _ this.2
+
+/-- `intersection(*markers)` / `union(*markers)` (the n-ary entry points with their recursion guard). -/
+theorem intersection_sound_partial (S : LeafSpec (leafEval E) G) {ms : List M} {r : M}
+    (hg : M.GoodAll G ms) (h : intersectionF fuel stk ms = .ok r) :
+    M.Good G r ∧ holds E r = M.semAll (leafEval E) ms := intersectionF_sound S hg h
+
+theorem unionF_sound_partial (S : LeafSpec (leafEval E) G) {ms : List M} {r : M}
+    (hg : M.GoodAll G ms) (h : unionF fuel stk ms = .ok r) :
+    M.Good G r ∧ holds E r = M.semAny (leafEval E) ms := unionF_sound S hg h
+
+/-- `MultiMarker.of` / `MarkerUnion.of` including the `while old != new` fix-point loop. -/
+theorem multiOf_sound_partial (S : LeafSpec (leafEval E) G) {ms : List M} {r : M}
+    (hg : M.GoodAll G ms) (h : multiOf fuel stk ms = .ok r) :
+    M.Good G r ∧ holds E r = M.semAll (leafEval E) ms := multiOf_sound S hg h
+
+theorem unionOf_sound_partial (S : LeafSpec (leafEval E) G) {ms : List M} {r : M}
+    (hg : M.GoodAll G ms) (h : unionOf fuel stk ms = .ok r) :
+    M.Good G r ∧ holds E r = M.semAny (leafEval E) ms := unionOf_sound S hg h
+
+/-- `intersect_simplify` / `union_simplify` (absorption and distribution over the common members). -/
+theorem intersect_simplify_sound_partial (S : LeafSpec (leafEval E) G) {ours : List M} {other r : M}
+    (hg : M.GoodAll G ours) (ho : M.Good G other)
+    (h : intersectSimplify fuel stk ours other = .ok (some r)) :
+    M.Good G r ∧ holds E r = (M.semAny (leafEval E) ours && holds E other) :=
+  intersectSimplify_sound S hg ho h
+
+theorem union_simplify_sound_partial (S : LeafSpec (leafEval E) G) {ours : List M} {other r : M}
+    (hg : M.GoodAll G ours) (ho : M.Good G other)
+    (h : unionSimplify fuel stk ours other = .ok (some r)) :
+    M.Good G r ∧ holds E r = (M.semAll (leafEval E) ours || holds E other) :=
+  unionSimplify_sound S hg ho h
+
+/-- **A result reported empty holds nowhere**: if `a.intersect(b)` is the empty marker, `a` and `b` are
+never true together. -/
+theorem empty_never_true_partial (S : LeafSpec (leafEval E) G) {a b r : M} (ha : M.Good G a)
+    (hb : M.Good G b) (h : mIntersect fuel stk a b = .ok r) (he : r.isEmpty = true) :
+    (holds E a && holds E b) = false := by
+  have := (mIntersect_sound S ha hb h).2
+  unfold holds; rw [← this]; exact M.isEmpty_sem he
+
+/-- **A result reported universal holds everywhere**: if `a.union(b)` is the universal marker, one of
+`a`, `b` is true in `E`. -/
+theorem any_always_true_partial (S : LeafSpec (leafEval E) G) {a b r : M} (ha : M.Good G a)
+    (hb : M.Good G b) (h : mUnion fuel stk a b = .ok r) (he : r.isAny = true) :
+    (holds E a || holds E b) = true := by
+  have := (mUnion_sound S ha hb h).2
+  unfold holds; rw [← this]; exact M.isAny_sem he
+
+/-! ### What is false of the code (the model mirrors it): the known finding `notin-union-notin-any` -/
+
+def sTegra : Single := ⟨"platform_release", "not in", "tegra", true, .gen (.s (.atom ⟨"tegra", .nc, false⟩))⟩
+def sRpi : Single := ⟨"platform_release", "not in", "rpi", true, .gen (.s (.atom ⟨"rpi", .nc, false⟩))⟩
+def envTegraRpi : Env := ⟨[("platform_release", "tegra-rpi")], some []⟩
+
+/-- `"tegra" not in platform_release or "rpi" not in platform_release` becomes the universal marker
+(`Constraint.union` treats two `not in` atoms like two `!=` atoms), although both operands are false
+for a release containing both words.  Same witness as the replayed known finding. -/
+theorem union_notin_notin_counterexample :
+    mkSingle "platform_release" "\"tegra\" not in" true = .ok sTegra ∧
+    mkSingle "platform_release" "\"rpi\" not in" true = .ok sRpi ∧
+    mUnion 1 [] (.leaf (.single sTegra)) (.leaf (.single sRpi)) = .ok .any ∧
+    M.validate envTegraRpi (.leaf (.single sTegra)) = .ok false ∧
+    M.validate envTegraRpi (.leaf (.single sRpi)) = .ok false ∧
+    M.validate envTegraRpi .any = .ok true := by
+  have e : (Generic.GC.s (.atom ⟨"tegra", .nc, false⟩)).unionWith (.s (.atom ⟨"rpi", .nc, false⟩)) =
+      .ok (.s .any) := rfl
+  refine ⟨rfl, rfl, ?_, rfl, rfl, rfl⟩
+  marker_eval [sTegra, sRpi, e]
+
+/-- hence the property at full strength does not hold (of the model, and of the code it mirrors) -/
+theorem C07_full_statement_false : ¬ C07_full_statement := by
+  intro h
+  obtain ⟨h1, h2, h3, h4, h5, h6⟩ := union_notin_notin_counterexample
+  have ev1 : M.Evaluable envTegraRpi (.leaf (.single sTegra)) := by
+    simp only [M.Evaluable, M.good_leaf]; exact ⟨false, h4⟩
+  have ev2 : M.Evaluable envTegraRpi (.leaf (.single sRpi)) := by
+    simp only [M.Evaluable, M.good_leaf]; exact ⟨false, h5⟩
+  have := (h envTegraRpi (.leaf (.single sTegra)) (.leaf (.single sRpi))
+    (by simp only [M.good_leaf]; exact ⟨_, _, _, _, h1, rfl⟩)
+    (by simp only [M.good_leaf]; exact ⟨_, _, _, _, h2, rfl⟩) ev1 ev2).2.1 1 [] .any h3
+  rw [h6] at this
+  have ha : holds envTegraRpi (.leaf (.single sTegra)) = false := by
+    have := holds_is_validate _ _ ev1; rw [h4] at this; exact (Except.ok.inj this).symm
+  have hb : holds envTegraRpi (.leaf (.single sRpi)) = false := by
+    have := holds_is_validate _ _ ev2; rw [h5] at this; exact (Except.ok.inj this).symm
+  rw [ha, hb] at this
+  exact absurd (Except.ok.inj this) (by decide)
+
 end Poetry.C07
